@@ -172,8 +172,15 @@ class Kernel:
 
     def digest(self):
         h = hashlib.sha256()
+        scrub = getattr(self, "scrub", None)
         for ev in self.events:
-            h.update(json.dumps(ev[1:], sort_keys=True, default=str).encode())
+            # payload keys starting with "_" are informative only (e.g. text printed by the
+            # code under test in hash order) and are not part of the digest
+            ev = ev[1:5] + ({k: v for k, v in ev[5].items() if not k.startswith("_")},)
+            s = json.dumps(ev, sort_keys=True, default=str)
+            if scrub:
+                s = s.replace(scrub, "<run>")
+            h.update(s.encode())
         h.update(repr(self.choices).encode())
         return h.hexdigest()[:16]
 
